@@ -128,6 +128,21 @@ def m_timestamp_opt(I, path, args):
     return Adt('LocalResult', 2, [])
 
 
+@R.model(r'^(chrono::)?(LocalResult|MappedLocalTime)::(single|earliest|latest|unwrap)$')
+def m_local_result(I, path, args):
+    r = deref1(args[0])
+    meth = strip_generics(path).split('::')[-1]
+    if meth == 'unwrap':
+        if r.variant != 0:
+            raise Panic('LocalResult::unwrap on ' + ['Single', 'Ambiguous', 'None'][r.variant])
+        return r.fields[0]
+    if r.variant == 0:
+        return Some(r.fields[0])
+    if r.variant == 1:
+        return NONE() if meth == 'single' else Some(r.fields[0 if meth == 'earliest' else 1])
+    return NONE()
+
+
 @R.model(r'^TimeDelta::(days|seconds|hours|minutes|weeks|milliseconds|zero)$', r'^Duration::(days|seconds|hours|minutes|weeks)$')
 def m_timedelta(I, path, args):
     unit = strip_generics(path).split('::')[-1]
